@@ -31,7 +31,10 @@ class Check:
     def __init__(self, pid, tier, seed):
         self.pid = pid
         self.tier = tier if tier in ('quick', 'thorough') else 'quick'
-        self.seed = seed
+        # every property draws its own stream of scenarios / cases from the run's seed: running all checks then
+        # explores 20 different samples instead of the same one 20 times
+        self.base_seed = seed
+        self.seed = seed * 100 + int(pid[1:3])
         self.notes = []
         self.cov = {}
         self.violations = []      # list of dicts {msg, replay, found_input}
@@ -906,6 +909,7 @@ class ZipfCheck(Check):
         for fn in sorted(os.listdir(d)) if os.path.isdir(d) else []:
             if fn.endswith('.json'):
                 cases.append(json.load(open(os.path.join(d, fn))))
+        cases += g.grid_cases(f'z{self.seed}-')
         cases += [g.pick_case(f'z{self.seed}-{i}') for i in range(self.counts[self.tier])]
         throws = [g.throw_case(f'zt{self.seed}-{i}') for i in range(12)]
         results, stats, texts = self.run_cases(exe, g, cases, throws)
